@@ -159,6 +159,9 @@ func jsonLeaf() string {
 	case 12:
 		return `9007199254740993`
 	}
+	if rng.Intn(8) == 0 { // strings that are member names of the encoding, or end like one
+		return pick([]string{`"min"`, `"max"`, `"left"`, `"right"`, `"operator"`, `"inclusive"`, `"power"`, `"distance"`, `"\"min"`, `"x\"max"`, `"\"left\":"`, `"LITERAL"`, `"AND"`})
+	}
 	if rng.Intn(6) == 0 {
 		return pick([]string{`"a\\"`, `"C:\\tmp\\"`, `"\\"`, `"a\\*"`, `"x\\\\"`, `"*\\"`})
 	}
